@@ -28,6 +28,10 @@ def trigger(cell, what):
     bits = [cell["h"], ITER[cell["it"]] if cell["form"] == "one" else
             {"var": "varargs", "zero": "no-args", "kw": "bad-keyword"}[cell["form"]],
             {"none": "no-fn", "plain": "async-fn", "block": "blocking-fn"}[cell["fk"]]]
+    if cell["ek"] in ("rec", "eq0", "eq1"):
+        bits.append("equal-but-distinct-elements")
+    if len(cell["xs"]) > 256:
+        bits.append("more-than-256-elements")
     return "/".join(bits)
 
 
@@ -98,13 +102,15 @@ def main():
             raise MachineryError("vacuous enumeration: helpers %s, cells with a prescribed flush count %d" % (sorted(per_helper), oneflush))
         cov = {
             "states": res.distinct, "transitions": res.generated, "traces_validated_against_impl": total,
-            "samples": [cases[len(cases) // 7], cases[len(cases) // 2], cases[-1]],
+            "samples": [c for c in (cases[len(cases) // 7], cases[len(cases) // 2], cases[-1]) if len(c["cell"]["xs"]) < 9],
             "cells": len(cases), "cells_per_helper": per_helper, "cells_with_prescribed_single_flush": oneflush,
-            "max_input_length": maxlen, "builds": list(builds),
+            "max_input_length": maxlen, "long_inputs": sorted({len(c["cell"]["xs"]) for c in cases if len(c["cell"]["xs"]) > 256}),
+            "cells_with_equal_but_distinct_elements": sum(1 for c in cases if c["cell"]["ek"] in ("rec", "eq0", "eq1")),
+            "builds": list(builds),
             "model_invariants": INVARIANTS, "model_ok": res.ok, "mismatching_cells": nmis,
             "oracle_cross_checked_against_builtins": sum(n for h, n in per_helper.items() if h != "aretry") * len(builds),
             "evaluations": total, "distinct_nontrivial": sum(1 for c in cases if nontrivial(c["cell"])),
-            "rule": "complete product: helper x every sequence of length <= %d over {None, 3 keys} x element kind x iterable kind (list, tuple, generator, iter(), map, reversed, chain) x call form x "
+            "rule": "complete product: helper x every sequence of length <= %d over {None, 3 keys} (+ sequences of 257 and 600 elements with a blocking function) x element kind (objects, ints, equal-but-distinct values 1/True/1.0 and 0/False/0.0, records with a permissive __eq__) x iterable kind (list, tuple, generator, iter(), map, reversed, chain) x call form x "
                     "function kind x reverse, aretry: k in 0..4 x max_tries in -1..4 x outcome x listed classes x callable kind (@asynq plain, @asynq generator, @async_proxy, make_async_decorator) x raise at call / at await time; "
                     "non-trivial = duplicates, None elements or a one-shot iterator among >= 2 elements, or a retry that fails at least once" % maxlen,
             "exhaustive": True,
